@@ -750,6 +750,13 @@ const CONTENTS: [&str; 8] = [
     "one line without newline needle\r",
 ];
 
+/// suffixes that make an outside sibling's name extend the root's name
+const ROOT_RELATIVES: [&str; 4] = ["_archive", "2", "-old", ".tmp"];
+/// suffixes that derive a relative's name from an existing name
+const NAME_RELATIVES: [&str; 11] =
+    ["_types.st", "2", "-old", ".tmp", ".st.tmp", ".bak", "~", ".swp", ".lock", "_y", "x"];
+const RENAME_SRC: &str = "PROGRAM R\nVAR\n    foo : INT;\nEND_VAR\nfoo := 1;\nEND_PROGRAM\n";
+
 struct Built {
     base: PathBuf,
     root_phys: Vec<String>,
@@ -791,6 +798,17 @@ fn build_tree(base: &Path, rng: &mut Rng, full: bool) -> Built {
     write_file(&mk(&base, "out/secret.st"), &format!("{MARK_OUT}-1 needle\nPROGRAM Out\nEND_PROGRAM\n"));
     write_file(&mk(&base, "out/sub/deep.st"), &format!("{MARK_OUT}-2 needle\n"));
     write_file(&mk(&base, "ws/sibling.st"), &format!("{MARK_OUT}-3 needle\n"));
+    // outside, NEXT TO the root, with names that extend the root's name as a string
+    let root_name = root_rel.rsplit('/').next().unwrap_or("proj").to_string();
+    let root_parent = root.parent().expect("root parent").to_path_buf();
+    for (i, suffix) in ROOT_RELATIVES.iter().enumerate() {
+        if full || rng.chance(1, 2) {
+            let sib = root_parent.join(format!("{root_name}{suffix}"));
+            write_file(&sib.join("secret.st"), &format!("{MARK_OUT}-s{i} needle\nPROGRAM Sib\nEND_PROGRAM\n"));
+            write_file(&sib.join("main.st"), &format!("{MARK_OUT}-m{i} needle\n"));
+            let _ = std::fs::create_dir_all(sib.join("lib"));
+        }
+    }
     // inside, visible
     write_file(&root.join("main.st"), CONTENTS[0]);
     for d in DIRS {
@@ -850,6 +868,59 @@ fn build_tree(base: &Path, rng: &mut Rng, full: bool) -> Built {
     }
     if full || rng.chance(1, 4) {
         symlink(&mk(&root, "lib"), &mk(&base, "out/into"));
+    }
+    // links from inside to the root's name-relatives outside
+    for (i, suffix) in ROOT_RELATIVES.iter().enumerate() {
+        let sib = root_parent.join(format!("{root_name}{suffix}"));
+        if sib.is_dir() && (full || rng.chance(1, 2)) {
+            symlink(&sib, &root.join(format!("rel{i}")));
+            if full || rng.chance(1, 3) {
+                symlink(&sib.join("secret.st"), &root.join(format!("relf{i}.st")));
+            }
+        }
+    }
+    // string-prefix / suffix relatives of names that exist in the tree: files, directories and
+    // links called `<x>_types.st`, `<x>2`, `<x>-old`, `<x>.tmp`, `<x>.bak`, `<x>~`, ... next to `<x>`
+    if full {
+        write_file(&root.join("r.st"), RENAME_SRC);
+        write_file(&root.join("lib_types.st"), CONTENTS[1]);
+        write_file(&mk(&root, "lib2/u.st"), CONTENTS[0]);
+        write_file(&root.join("main.st~"), "editor backup\n");
+        write_file(&root.join(".main.st.swp"), &format!("{MARK_HID}-5 needle\n"));
+        symlink(&mk(&base, "out/secret.st"), &root.join("main.st.tmp"));
+        symlink(&mk(&base, "out/staged-new.st"), &mk(&root, "lib/util.st.tmp"));
+        symlink(&mk(&base, "out/sub/deep.st"), &root.join("main.st.bak"));
+        symlink(&mk(&base, "out/secret.st"), &root.join("r.st.tmp"));
+        symlink(&mk(&base, "out/lock-new"), &root.join("main.st.lock"));
+        symlink(&root_parent.join(format!("{root_name}{}", ROOT_RELATIVES[0])), &root.join("lib-old"));
+    } else {
+        let existing: Vec<String> = existing_paths(&root)
+            .into_iter()
+            .filter(|p| !p.split('/').any(|c| c.starts_with('.')) && p.split('/').count() <= 2)
+            .filter(|p| !std::fs::symlink_metadata(root.join(p)).map_or(true, |m| m.file_type().is_symlink()))
+            .collect();
+        let nrel = rng.below(5);
+        for _ in 0..nrel {
+            if existing.is_empty() {
+                break;
+            }
+            let x = rng.pick(&existing).clone();
+            let suffix = *rng.pick(&NAME_RELATIVES);
+            let rel = root.join(format!("{x}{suffix}"));
+            if std::fs::symlink_metadata(&rel).is_ok() {
+                continue;
+            }
+            match rng.below(6) {
+                0 | 1 => write_file(&rel, *rng.pick(&CONTENTS)),
+                2 => {
+                    let _ = std::fs::create_dir_all(&rel);
+                    write_file(&rel.join("u.st"), *rng.pick(&CONTENTS));
+                }
+                3 => symlink(&mk(&base, "out/secret.st"), &rel),
+                4 => symlink(&mk(&base, &format!("out/derived-{}", rng.below(3))), &rel),
+                _ => symlink(&root.join("main.st"), &rel),
+            }
+        }
     }
     // the root handed to the IDE: usually the canonical path, sometimes a link to it
     let mut root_arg = root.clone();
@@ -1048,6 +1119,19 @@ fn gen_op(rng: &mut Rng, w: &World, protocol: bool, focus: &[String]) -> Vec<Op>
             70..=75 => vec![Op::Delete { tok, path, we: gen_we(rng) }],
             76..=82 => vec![Op::Create { tok, path, is_dir: false, content: Some(gen_content(rng)), we: gen_we(rng) }],
             83..=88 => {
+                // half of the renames move a real directory to a name derived from it
+                let dirs: Vec<String> = existing_paths(&w.root_abs())
+                    .into_iter()
+                    .filter(|p| {
+                        !p.split('/').any(|c| c.starts_with('.'))
+                            && matches!(std::fs::symlink_metadata(w.root_abs().join(p)), Ok(m) if m.is_dir())
+                    })
+                    .collect();
+                if !dirs.is_empty() && rng.bool() {
+                    let d = rng.pick(&dirs).clone();
+                    let new = format!("{d}{}", rng.pick(&["9", "_moved", "-old", "x"]));
+                    return vec![Op::Rename { tok, path: d, new, we: gen_we(rng) }];
+                }
                 let new = if rng.bool() && !focus.is_empty() { rng.pick(focus).clone() } else { gen_path(rng, w) };
                 vec![Op::Rename { tok, path, new, we: gen_we(rng) }]
             }
@@ -1092,7 +1176,48 @@ fn gen_op(rng: &mut Rng, w: &World, protocol: bool, focus: &[String]) -> Vec<Op>
 // oracle-only tail of a case: exotic paths and the analysis operations (not modelled)
 // ------------------------------------------------------------------------------------------
 
+/// `rename_symbol` that really edits a file next to which links with derived names are planted
+/// (`r.st.tmp` -> outside): the write must touch `r.st` only (oracle-only, not modelled).
+fn scripted_rename_symbol(w: &mut World, n: u64, out: &mut Out) {
+    let r = w.root_abs().join("r.st");
+    if !matches!(std::fs::symlink_metadata(&r), Ok(m) if m.is_file()) {
+        return;
+    }
+    let _ = std::fs::write(&r, RENAME_SRC);
+    w.snap = snapshot(&w.base);
+    let Ok(sess) = w.state.create_session(IdeRole::Editor) else { return };
+    let before = w.snap.clone();
+    let res = catch_unwind(AssertUnwindSafe(|| {
+        w.state
+            .rename_symbol(&sess.token, "r.st", None, Position { line: 2, character: 5 }, "bar", true)
+            .map(|r| r.edit_count)
+            .map_err(|e| err_str(&e))
+    }));
+    let after = snapshot(&w.base);
+    let (_, changed) = diff(&before, &after);
+    w.snap = after;
+    let label = "oracle-only scripted rename_symbol(r.st, foo -> bar)";
+    match res {
+        Ok(Ok(edits)) if edits > 0 => out.count("scripted_rename_symbol_edits"),
+        Ok(_) => out.count("scripted_rename_symbol_no_edit"),
+        Err(_) => {
+            out.count("incidental_panic_in_analysis_op");
+            out.line(format!("# NOTE incidental panic in {label}"));
+        }
+    }
+    w.check_diff(out, n, label, &changed, true, &[]);
+    // nothing but r.st itself may change
+    let mut want = w.root_phys.clone();
+    want.push("r.st".into());
+    for (p, _) in &changed {
+        if *p != want {
+            w.oracle_fail(out, n, "rename-symbol-touched-another-entry", label, &p.join("/"));
+        }
+    }
+}
+
 fn oracle_only_tail(w: &mut World, rng: &mut Rng, n: u64, out: &mut Out) {
+    scripted_rename_symbol(w, n, out);
     let long_comp = "L".repeat(300);
     let long_path = vec!["p"; 2500].join("/");
     let exotic: Vec<String> = vec![
@@ -1329,11 +1454,49 @@ fn corpus(k: u64) -> Option<Vec<Op>> {
             Op::XWrite { phys: vec!["ws".into(), "proj".into(), "main.st".into()], content: "B1 precious\n".into(), only_if: Some(CONTENTS[0].into()) },
             o(1, "droot/main.st"),
         ]),
+        // document-key bookkeeping of a folder rename: `lib_types.st` and `lib2/u.st` extend the
+        // folder's name `lib` as strings but are not inside it; their tracked documents (and
+        // version counters) must survive `lib` -> `libx`, stale saves must still conflict
+        8 => Some(vec![
+            Op::Session(true), Op::Session(true),
+            o(0, "lib_types.st"), o(1, "lib_types.st"), ap(1, "lib_types.st", 1, "B1 types\n"),
+            o(0, "lib2/u.st"), o(1, "lib2/u.st"), ap(1, "lib2/u.st", 1, "B1 u\n"),
+            o(0, "lib/util.st"), o(1, "lib/util.st"), ap(1, "lib/util.st", 1, "B1 util\n"),
+            rn(1, "lib", "libx"), Op::Health { tok: 0 },
+            ap(0, "lib_types.st", 1, "A stale types\n"), ap(0, "lib2/u.st", 1, "A stale u\n"),
+            ap(0, "libx/util.st", 1, "A stale util\n"), ap(0, "libx/util.st", 2, "A stale util 2\n"),
+            o(1, "lib_types.st"), o(1, "lib2/u.st"), o(1, "libx/util.st"), o(0, "lib/util.st"),
+            de(1, "lib2"), Op::Health { tok: 0 }, o(0, "lib_types.st"), ap(0, "lib_types.st", 2, "A2 types\n"),
+            rn(1, "libx", "lib"), ap(0, "lib_types.st", 3, "A3 types\n"), o(1, "lib/util.st"),
+        ]),
+        // links from inside to OUTSIDE SIBLINGS OF THE ROOT whose names extend the root's name
+        // (`proj_archive`, `proj2`, `proj-old`, `proj.tmp`): a string-prefix containment test
+        // would let every operation through
+        9 => Some(vec![
+            Op::Session(true),
+            o(0, "rel0/secret.st"), ap(0, "rel0/secret.st", 1, "OVERWRITTEN\n"), cr(0, "rel0/new.st", false, Some("x")),
+            cr(0, "rel1/newdir", true, None), de(0, "rel1/secret.st"), rn(0, "main.st", "rel2/main.st"),
+            rn(0, "rel2/secret.st", "stolen.st"), o(0, "rel3/main.st"), de(0, "rel3/lib"),
+            o(0, "relf0.st"), o(0, "lib-old/secret.st"), cr(0, "lib-old/lib/x.st", false, Some("x")),
+            Op::Format { tok: 0, path: "rel0/secret.st".into(), content: None },
+            Op::Search { tok: 0, query: "zz".into(), limit: 50 }, Op::List { tok: 0 }, Op::Tree { tok: 0 },
+        ]),
+        // planted links with names DERIVED from saved files (`main.st.tmp`, `.bak`, `.lock`,
+        // `lib/util.st.tmp` dangling): a save must touch the named file only
+        10 => Some(vec![
+            Op::Session(true),
+            o(0, "main.st"), ap(0, "main.st", 1, "saved 1\n"), ap(0, "main.st", 2, "saved 2\n"),
+            o(0, "lib/util.st"), ap(0, "lib/util.st", 1, "saved util\n"),
+            o(0, "r.st"), ap(0, "r.st", 1, "saved r\n"),
+            cr(0, "fresh.st", false, Some("fresh\n")), ap(0, "fresh.st", 1, "fresh 2\n"),
+            o(0, "main.st.tmp"), de(0, "main.st.tmp"), o(0, "main.st~"), ap(0, "main.st~", 1, "bk\n"),
+            rn(0, "main.st", "main2.st"), rn(0, "main2.st", "main.st"), Op::List { tok: 0 },
+        ]),
         _ => None,
     }
 }
 
-const CORPUS_LEN: u64 = 8;
+const CORPUS_LEN: u64 = 11;
 
 fn run_case(args: &Args, n: u64, out: &mut Out) -> u64 {
     let mut rng = Rng::for_case(args.seed, n);
@@ -1368,6 +1531,23 @@ fn run_case(args: &Args, n: u64, out: &mut Out) -> u64 {
             if !ex.is_empty() {
                 f.push(rng.pick(&ex).clone());
             }
+            // files whose path extends a directory's name as a STRING without being inside it
+            // (`lib_types.st`, `lib2/u.st` next to `lib/`): the document-key bookkeeping of a
+            // folder rename must not touch them
+            let dirs: Vec<String> = existing_paths(&w.root_abs())
+                .into_iter()
+                .filter(|p| w.root_abs().join(p).is_dir())
+                .collect();
+            for p in &ex {
+                if f.len() < 5 && dirs.iter().any(|d| p.starts_with(d.as_str()) && !p.starts_with(&format!("{d}/"))) {
+                    f.push(p.clone());
+                }
+            }
+            for p in &ex {
+                if f.len() < 6 && p.contains('/') && rng.chance(1, 3) {
+                    f.push(p.clone());
+                }
+            }
             f
         } else {
             Vec::new()
@@ -1383,11 +1563,35 @@ fn run_case(args: &Args, n: u64, out: &mut Out) -> u64 {
                         through_link = true;
                     }
                 }
+                let before_snap = w.snap.clone();
                 exec(&mut w, &op, n, out);
                 if w.snap.len() != before {
                     mutated = true;
                 }
                 out.count("ops");
+                // after a rename / delete that changed the tree: the tracked-document table is
+                // property-relevant (a lost version counter = a lost update), so follow up on
+                // EVERY path that was ever opened: re-open it, or save with the version it was
+                // given (which must conflict exactly when the model says so)
+                if matches!(op, Op::Rename { .. } | Op::Delete { .. }) && w.snap != before_snap {
+                    let mut keys: Vec<(usize, String)> = w.issued.keys().cloned().collect();
+                    keys.sort();
+                    keys.dedup();
+                    let step = keys.len() / 10 + 1;
+                    for (j, (tok, key)) in keys.into_iter().enumerate() {
+                        if j % step != 0 {
+                            continue;
+                        }
+                        let follow = if rng.bool() {
+                            Op::Open { tok, path: key }
+                        } else {
+                            let v = w.issued.get(&(tok, key.clone())).and_then(|m| m.keys().next_back().copied()).unwrap_or(1);
+                            Op::Apply { tok, path: key, expected: v, content: gen_content(&mut rng), we: true, honest: true, true_disk: None }
+                        };
+                        exec(&mut w, &follow, n, out);
+                        out.count("followup_ops");
+                    }
+                }
             }
         }
     }
